@@ -493,7 +493,16 @@ def e2e_case(ck: Check, camp, case: Case, cfg: Cfg, model: str, opts: dict) -> N
         camp.distinct.add(json.dumps(inp, sort_keys=True, default=str))
         enums = [c for c in vars(mod).values() if isinstance(c, type) and issubclass(c, pyenum.Enum) and c.__module__ == mod.__name__]
         holder = getattr(mod, built.holder, None) if built.holder else None
-        hints = typing.get_type_hints(holder) if holder is not None else {}
+        try:
+            hints = typing.get_type_hints(holder) if holder is not None else {}
+        except Exception as e:  # noqa: BLE001
+            if non_null:
+                ck.fail({**base, "mechanism": "values"}, inp, f"the annotations of {built.holder} cannot be evaluated: {type(e).__name__}: {str(e)[:120]}")
+                return
+            # an enum that lists only null, named and referred to with --use-union-operator: `E = None`, `e: E | None` — there is no
+            # value an Enum / Literal could list (C09 says nothing); that `None | None` cannot be evaluated is a matter of C13
+            camp.hit("only_null:annotation_unevaluable")
+            hints = {}
         lit = find_literal_args(hints.get("e"))
         if enums:
             camp.hit("as:enum")
